@@ -33,8 +33,12 @@ where
         let n = x.nrows();
         let mut classes = Vec::with_capacity(nclasses);
         let mut likelihood = Array2::zeros((nclasses, n));
+        // visit the classes in label order so that ties between equally likely classes do not
+        // depend on the iteration order of the hash map
+        let mut joint_log_likelihood = joint_log_likelihood.iter().collect::<Vec<_>>();
+        joint_log_likelihood.sort_by(|a, b| a.0.cmp(b.0));
         joint_log_likelihood
-            .iter()
+            .into_iter()
             .enumerate()
             .for_each(|(i, (&key, value))| {
                 classes.push(key.clone());
